@@ -44,7 +44,8 @@ def one(name, jobs):
         rc1, _ = run(["/venv/bin/python", os.path.join(d, "demo.py")], cwd=scratch, env=env)
         rec["demo_patched_exit"] = rc1
         rec["still_breaks"] = rc0 == 0 and rc1 != 0
-        checks = [pid] + [p for p in list(meta.get("check_results") or {}) + ALSO if p != pid]
+        earlier = list(meta.get("check_results") or {}) + list((meta.get("recheck") or {}).get("checks") or {})
+        checks = [pid] + [p for p in earlier + ALSO if p != pid]
         checks = list(dict.fromkeys(checks))
         rec["checks"] = {}
         for p in checks:
